@@ -374,6 +374,21 @@ func GenConfDoc(rng *rand.Rand, mcast4, mcast6 []string) *ConfDoc {
 		}
 	}
 	d.YAML = sb.String()
+	if rng.Intn(10) == 0 {
+		// the whole document indented (pasted from a heredoc, a ConfigMap, a code block): the same document
+		k := 1 + rng.Intn(4)
+		var ind strings.Builder
+		if rng.Intn(2) == 0 {
+			ind.WriteString([]string{"\n", "# coredhcp configuration\n", "\n\n# generated\n", "---\n"}[rng.Intn(4)])
+		}
+		for _, l := range strings.SplitAfter(d.YAML, "\n") {
+			if strings.TrimSpace(l) != "" {
+				ind.WriteString(strings.Repeat(" ", k))
+			}
+			ind.WriteString(l)
+		}
+		d.YAML = ind.String()
+	}
 	if reject != "" {
 		d.Class, d.Why = "must-reject", reject
 		d.S4, d.S6 = nil, nil
